@@ -24,6 +24,9 @@
   * cyclic classes: `level_step_mod`, `cyclic_classes_spec`, `cyclic_classes_spec'`,
     `cyclic_classes_nonempty`, `cyclic_classes_unique`, `cyclic_classes_aperiodic`
   * sub-graph: `subgraph_edge_iff`; stored zeros: `elimZeros_spec`
+  * histories on one object (label reassignment interleaved with reads): `dg_history_read`,
+    `dg_history_readSub`, `dgRead_indices_label_free`, `mc_history_read`, `mc_digraph_frozen`,
+    `mc_sets_before_first_read`
 -/
 import QEModel.C03
 import QEProofs.Lemmas.C03Period
@@ -960,6 +963,112 @@ theorem elimZeros_spec (stored nz : List (List Nat)) :
   simp only [List.mem_map, List.mem_filter, bne_iff_ne, ne_eq, Prod.exists, exists_and_right, exists_eq_right]
 
 example : elimZeros [[1, 0], [1, 0]] [[1, 0], [1, 1]] = [[1], [1, 0]] := by decide
+
+
+/-! ## object histories: reads depend only on the graph and the labels in force -/
+
+/-- the labels in force after a history (`node_labels` / `state_values` as last assigned) -/
+def labelsAfter (L : Option (List Int)) : List Step → Option (List Int)
+  | [] => L
+  | .setLabels L' :: rest => labelsAfter L' rest
+  | .read _ :: rest => labelsAfter L rest
+  | .readSub _ :: rest => labelsAfter L rest
+
+theorem dgRun_append (s : DGState) (a b : List Step) :
+    dgRun s (a ++ b) = dgRun s a ++ dgRun ⟨s.g, labelsAfter s.labels a⟩ b := by
+  induction a generalizing s with
+  | nil => simp [dgRun, labelsAfter]
+  | cons st a ih =>
+    cases st with
+    | setLabels L => simp only [List.cons_append, dgRun, dgStep, labelsAfter]; exact ih _
+    | read w => simp only [List.cons_append, dgRun, dgStep, labelsAfter, List.cons.injEq, true_and]; exact ih _
+    | readSub nodes => simp only [List.cons_append, dgRun, dgStep, labelsAfter, List.cons.injEq, true_and]; exact ih _
+
+/-- **History theorem (`DiGraph`).** Whatever was read or assigned before, a read answers what a
+    fresh object with the same graph and the labels assigned last would answer: no read leaves a
+    trace, and only the last assignment of `node_labels` counts. -/
+theorem dg_history_read (s : DGState) (pre : List Step) (w : String) :
+    dgRun s (pre ++ [.read w]) = dgRun s pre ++ [dgRead s.g (labelsAfter s.labels pre) w] := by
+  rw [dgRun_append]; rfl
+
+theorem dg_history_readSub (s : DGState) (pre : List Step) (nodes : List Nat) :
+    dgRun s (pre ++ [.readSub nodes]) = dgRun s pre ++ [dgReadSub s.g (labelsAfter s.labels pre) nodes] := by
+  rw [dgRun_append]; rfl
+
+/-- index variants, counts and period do not depend on the labels at all -/
+theorem dgRead_indices_label_free (g : G) (L L' : Option (List Int)) (w : String)
+    (hw : w ≠ "scclab" ∧ w ≠ "sinklab" ∧ w ≠ "cyclab") : dgRead g L w = dgRead g L' w := by
+  obtain ⟨h1, h2, h3⟩ := hw
+  unfold dgRead
+  cases sccClasses g with
+  | none => rfl
+  | some Cs =>
+    simp only
+    split <;> first | rfl | (exfalso; simp_all)
+
+/-! MarkovChain: the digraph freezes the labels at the first graph-theoretic read -/
+
+def mcStateAfter (s : MCState) : List Step → MCState
+  | [] => s
+  | st :: rest => mcStateAfter (mcStep s st).1 rest
+
+theorem mcRun_append (s : MCState) (a b : List Step) :
+    mcRun s (a ++ b) = mcRun s a ++ mcRun (mcStateAfter s a) b := by
+  induction a generalizing s with
+  | nil => simp [mcRun, mcStateAfter]
+  | cons st a ih =>
+    cases st with
+    | setLabels L => simp only [List.cons_append, mcRun, mcStep, mcStateAfter]; exact ih _
+    | read w => simp only [List.cons_append, mcRun, mcStep, mcStateAfter, List.cons.injEq, true_and]; exact ih _
+    | readSub nodes => simp only [List.cons_append, mcRun, mcStep, mcStateAfter, List.cons.injEq, true_and]; exact ih _
+
+/-- the labels a read of the chain uses: those of the digraph if it exists, else the current values -/
+def mcEffective (s : MCState) : Option (List Int) :=
+  match s.digraph with
+  | some dl => dl
+  | none => s.values
+
+/-- **History theorem (`MarkovChain`, the code as it is).** A read answers as a function of the
+    chain and of the labels its digraph carries — the `state_values` in force at the FIRST
+    graph-theoretic read. -/
+theorem mc_history_read (s : MCState) (pre : List Step) (w : String) :
+    mcRun s (pre ++ [.read w]) = mcRun s pre ++ [mcRead s.g (mcEffective (mcStateAfter s pre)) w] := by
+  rw [mcRun_append]
+  have hg : ∀ (t : MCState) (l : List Step), (mcStateAfter t l).g = t.g := by
+    intro t l
+    induction l generalizing t with
+    | nil => rfl
+    | cons st l ih => cases st <;> simp [mcStateAfter, mcStep, ih]
+  simp only [mcRun, mcStep, mcEffective, hg]
+  cases (mcStateAfter s pre).digraph <;> rfl
+
+/-- once built, the digraph's labels never change (this is the stale-labels behaviour) -/
+theorem mc_digraph_frozen (s : MCState) (dl : Option (List Int)) (h : s.digraph = some dl) (l : List Step) :
+    (mcStateAfter s l).digraph = some dl := by
+  induction l generalizing s with
+  | nil => exact h
+  | cons st l ih =>
+    cases st with
+    | setLabels L => exact ih _ (by simp [mcStep, h])
+    | read w => exact ih _ (by simp [mcStep, h])
+    | readSub nodes => exact ih _ (by simp [mcStep, h])
+
+/-- assignments made before the first read are honoured: with the digraph not yet built and a
+    history of assignments only, the next read uses the values assigned last -/
+theorem mc_sets_before_first_read (s : MCState) (h : s.digraph = none) (pre : List Step)
+    (hpre : ∀ st, st ∈ pre → ∃ L, st = .setLabels L) :
+    mcEffective (mcStateAfter s pre) = labelsAfter s.values pre := by
+  induction pre generalizing s with
+  | nil => simp [mcStateAfter, mcEffective, h, labelsAfter]
+  | cons st pre ih =>
+    obtain ⟨L, rfl⟩ := hpre st (by simp)
+    simp only [mcStateAfter, mcStep, labelsAfter]
+    exact ih _ (by simpa using h) (fun st' hst' => hpre st' (by simp [hst']))
+
+example : dgRun ⟨⟨2, [[1], [1]]⟩, some [10, 20]⟩ [.read "scclab", .setLabels (some [7, 8]), .read "scclab"]
+    = ["10;20", "7;8"] := by decide
+example : mcRun ⟨⟨2, [[0, 1], [1]]⟩, some [10, 20], none⟩ [.read "commlab", .setLabels (some [7, 8]), .read "commlab"]
+    = ["10;20", "10;20"] := by decide
 
 
 end QE.C03
